@@ -127,8 +127,10 @@ CompletenessProps(g2, u, e) ==
     (IF g2.enc[e].recaps THEN {"C18"} ELSE {})
     \cup (IF g2.usk[u].refreshed THEN {"C04"} ELSE {})
     \cup (IF g2.edited THEN {"C03"} ELSE {})
-    \* C01 speaks about a key as generated (rotation and re-encapsulation have their own properties)
-    \cup (IF ~g2.usk[u].refreshed /\ ~g2.enc[e].recaps THEN {"C01"} ELSE {})
+    \* C01: the key's policy covers a conjunction of the encryption policy and the key is up to date for it
+    \* (that is what `must` says), so it has to open -- whether it is as generated or was refreshed since
+    \* (a re-encapsulation has no encryption policy: C18 only)
+    \cup (IF ~g2.enc[e].recaps THEN {"C01"} ELSE {})
 
 SoundnessProps(g2, u, e) ==
     LET rs == Reasons(g2, u, e)
@@ -277,6 +279,20 @@ PublishedDisabledViol(ev) ==
                       IF \E i \in hits : \E j \in 1..Len(ev.mpkv.keys[i].r) :
                              ev.mpkv.keys[i].r[j] \in SharedIds(ev.mpkv) \/ AliasedId(ev.mpkv.keys[i].r[j]) THEN "alias" ELSE "none",
                       <<ev.op, {ev.mpkv.keys[i].r : i \in hits}>>)}
+            ELSE {}
+    ELSE {}
+
+\* C04 / C06 on the logged views: what a public key publishes for a right is the NEWEST secret of that right
+\* in the master key (the public key follows every rotation), never an older one
+PublishedNotNewestViol(ev, m) ==
+    IF Has(ev, "mpkv") /\ ev.res = "ok" /\ ev.op \in {"update", "rekey", "prune", "mpk"}
+    THEN LET older == {i \in 1..Len(ev.mpkv.keys) :
+                        \E j \in 1..Len(m.rights) :
+                            /\ m.rights[j].r = ev.mpkv.keys[i].r
+                            /\ m.rights[j].ch[1].p # ev.mpkv.keys[i].p}
+         IN IF older # {}
+            THEN {Vio({"C04", "C06"}, "a public key publishes a secret that is not the newest one of its right", "none",
+                      <<ev.op, {ev.mpkv.keys[i].r : i \in older}>>)}
             ELSE {}
     ELSE {}
 
@@ -464,6 +480,7 @@ Call(ev) ==
         g3 == g2
         m == ViewMsk(ev)
         newviol == ContractViol(ev, v) \cup RoundTripViol(ev) \cup FreshViol(ev) \cup DriftViol(ev) \cup HeaderViol(ev) \cup PublishedDisabledViol(ev) \cup StaleRightsViol(ev)
+                   \cup PublishedNotNewestViol(ev, m)
                    \cup (IF lostSync THEN {} ELSE
                            OpensViol(g3, ev) \cup RecapsViol(g3, ev) \cup FlavourViol(g3, ev)
                            \cup HeldViol(ev) \cup IdViol(ev))
